@@ -107,6 +107,17 @@ func (q *UnitType) Modality() Modality {
 	return q.Mode
 }
 
+// The operators * and -* are right associative and the continuation of a shift extends as far
+// as possible, so a left operand that is itself a send, receive or shift type is printed in
+// brackets. Otherwise different types (e.g. (1 * 1) * 1 and 1 * (1 * 1)) print identically.
+func bracketLeftOperand(t SessionType, str string) string {
+	switch t.(type) {
+	case *SendType, *ReceiveType, *UpType, *DownType:
+		return "(" + str + ")"
+	}
+	return str
+}
+
 // Send: A * B
 type SendType struct {
 	Left  SessionType
@@ -124,8 +135,7 @@ func NewSendType(left, right SessionType, mode Modality) *SendType {
 
 func (q *SendType) String() string {
 	var buffer bytes.Buffer
-	// buffer.WriteString("(")
-	buffer.WriteString(q.Left.String())
+	buffer.WriteString(bracketLeftOperand(q.Left, q.Left.String()))
 	buffer.WriteString(" * ")
 	buffer.WriteString(q.Right.String())
 	// buffer.WriteString(")")
@@ -134,7 +144,7 @@ func (q *SendType) String() string {
 
 func (q *SendType) StringWithModality() string {
 	var buffer bytes.Buffer
-	buffer.WriteString(q.Left.StringWithModality())
+	buffer.WriteString(bracketLeftOperand(q.Left, q.Left.StringWithModality()))
 	buffer.WriteString(" [")
 	buffer.WriteString(q.Mode.String())
 	buffer.WriteString("]* ")
@@ -144,7 +154,7 @@ func (q *SendType) StringWithModality() string {
 
 func (q *SendType) StringWithOuterModality() string {
 	var buffer bytes.Buffer
-	buffer.WriteString(q.Left.String())
+	buffer.WriteString(bracketLeftOperand(q.Left, q.Left.String()))
 	buffer.WriteString(" * ")
 	buffer.WriteString(q.Right.String())
 	buffer.WriteString(" [")
@@ -174,8 +184,7 @@ func NewReceiveType(left, right SessionType, mode Modality) *ReceiveType {
 
 func (q *ReceiveType) String() string {
 	var buffer bytes.Buffer
-	// buffer.WriteString("(")
-	buffer.WriteString(q.Left.String())
+	buffer.WriteString(bracketLeftOperand(q.Left, q.Left.String()))
 	buffer.WriteString(" -* ")
 	buffer.WriteString(q.Right.String())
 	// buffer.WriteString(")")
@@ -184,8 +193,7 @@ func (q *ReceiveType) String() string {
 
 func (q *ReceiveType) StringWithModality() string {
 	var buffer bytes.Buffer
-	// buffer.WriteString("(")
-	buffer.WriteString(q.Left.StringWithModality())
+	buffer.WriteString(bracketLeftOperand(q.Left, q.Left.StringWithModality()))
 	buffer.WriteString(" [")
 	buffer.WriteString(q.Mode.String())
 	buffer.WriteString("]-* ")
@@ -196,7 +204,7 @@ func (q *ReceiveType) StringWithModality() string {
 
 func (q *ReceiveType) StringWithOuterModality() string {
 	var buffer bytes.Buffer
-	buffer.WriteString(q.Left.String())
+	buffer.WriteString(bracketLeftOperand(q.Left, q.Left.String()))
 	buffer.WriteString(" -* ")
 	buffer.WriteString(q.Right.String())
 	buffer.WriteString(" [")
